@@ -21,6 +21,7 @@ import (
 	"strings"
 	"time"
 
+	"github.com/btcsuite/btcutil/base58"
 	gojose "github.com/go-jose/go-jose/v3"
 	"github.com/google/tink/go/hybrid/subtle"
 	bbs "github.com/hyperledger/aries-framework-go/component/kmscrypto/crypto/primitive/bbs12381g2pub"
@@ -30,7 +31,9 @@ import (
 	"github.com/hyperledger/aries-framework-go/component/kmscrypto/doc/jose/kidresolver"
 	"github.com/hyperledger/aries-framework-go/component/kmscrypto/doc/util/fingerprint"
 	"github.com/hyperledger/aries-framework-go/component/kmscrypto/doc/util/kmsdidkey"
+
 	"github.com/hyperledger/aries-framework-go/component/models/did"
+	"github.com/hyperledger/aries-framework-go/component/models/did/util/vmparse"
 	"github.com/hyperledger/aries-framework-go/component/models/jose/diddocresolver"
 	afjwt "github.com/hyperledger/aries-framework-go/component/models/jwt"
 	"github.com/hyperledger/aries-framework-go/component/models/ld/testutil"
@@ -39,8 +42,10 @@ import (
 	"github.com/hyperledger/aries-framework-go/component/models/sdjwt/holder"
 	"github.com/hyperledger/aries-framework-go/component/models/sdjwt/issuer"
 	sdverifier "github.com/hyperledger/aries-framework-go/component/models/sdjwt/verifier"
+	sigsigner "github.com/hyperledger/aries-framework-go/component/models/signature/signer"
 	"github.com/hyperledger/aries-framework-go/component/models/signature/suite"
 	"github.com/hyperledger/aries-framework-go/component/models/signature/suite/ed25519signature2018"
+	"github.com/hyperledger/aries-framework-go/component/models/signature/suite/jsonwebsignature2020"
 	sigutil "github.com/hyperledger/aries-framework-go/component/models/signature/util"
 	sigverifier "github.com/hyperledger/aries-framework-go/component/models/signature/verifier"
 	"github.com/hyperledger/aries-framework-go/component/models/verifiable"
@@ -49,7 +54,9 @@ import (
 	"github.com/hyperledger/aries-framework-go/pkg/didcomm/protocol/decorator"
 	"github.com/hyperledger/aries-framework-go/pkg/didcomm/transport"
 	"github.com/hyperledger/aries-framework-go/pkg/doc/cm"
+	mockvdr "github.com/hyperledger/aries-framework-go/pkg/mock/vdr"
 	"github.com/hyperledger/aries-framework-go/spi/kms"
+	vdrspi "github.com/hyperledger/aries-framework-go/spi/vdr"
 	"github.com/piprate/json-gold/ld"
 
 	"verifharness/c01env"
@@ -849,7 +856,7 @@ func (s *syncWorld) docSeeds() {
 
 	must(parseVC([]byte(vcJWT)))
 	s.add(&Seed{Name: "vc.jwt", Layer: "X", Kind: "token", Wire: []byte(vcJWT),
-		Targets: []Target{{"verifiable.ParseCredential", parseVC}}})
+		Targets: []Target{{"verifiable.ParseCredential", parseVC}, {"verifiable.ParseCredential(no proof check)", parseVCNoProof}}})
 
 	// SD-JWT credential
 	_, sdPriv, err := ed25519.GenerateKey(detRand("c03-sdvc"))
@@ -883,6 +890,104 @@ func (s *syncWorld) docSeeds() {
 	s.add(&Seed{Name: "vp.ldproof", Layer: "X", Kind: "json", Wire: vpb,
 		Targets: []Target{{"verifiable.ParsePresentation", parseVP}}})
 
+	// the JWT form of a presentation
+	if vpClaims, e := vp.JWTClaims([]string{"did:example:aud"}, false); e == nil {
+		if vpJWT, e2 := vpClaims.MarshalJWS(verifiable.EdDSA, sg, "did:example:76e12ec712ebc6f1c221ebfeb1f#key-1"); e2 == nil {
+			must(parseVP([]byte(vpJWT)))
+
+			parseVPNoProof := func(in []byte) error {
+				_, e3 := verifiable.ParsePresentation(in, verifiable.WithPresJSONLDDocumentLoader(loader),
+					verifiable.WithPresDisabledProofCheck())
+				return e3
+			}
+
+			s.add(&Seed{Name: "vp.jwt", Layer: "X", Kind: "token", Wire: []byte(vpJWT),
+				Targets: []Target{{"verifiable.ParsePresentation", parseVP},
+					{"verifiable.ParsePresentation(no proof check)", parseVPNoProof}}})
+		}
+	}
+
+	// a credential together with the DID document of its issuer (both come from other parties): the proof is checked
+	// with the key the document's verification method gives, in whatever form it gives it
+	jwsSuite := jsonwebsignature2020.New(suite.WithSigner(sg), suite.WithVerifier(jsonwebsignature2020.NewPublicKeyVerifier()))
+
+	for _, sc := range []struct {
+		name, sigType, vmType string
+		st                    sigsigner.SignatureSuite
+	}{{"ed2018", "Ed25519Signature2018", "Ed25519VerificationKey2018", sigSuite}, {"jws2020", "JsonWebSignature2020", "JsonWebKey2020", jwsSuite}} {
+		vc2, e := verifiable.ParseCredential([]byte(vcSimple), verifiable.WithJSONLDDocumentLoader(loader), verifiable.WithDisabledProofCheck())
+		must(e)
+
+		if sc.sigType == "JsonWebSignature2020" {
+			vc2.Context = append(vc2.Context, "https://w3id.org/security/suites/jws-2020/v1")
+		}
+
+		const issuer = "did:example:76e12ec712ebc6f1c221ebfeb1f"
+
+		if e = vc2.AddLinkedDataProof(&verifiable.LinkedDataProofContext{SignatureType: sc.sigType, Suite: sc.st,
+			SignatureRepresentation: verifiable.SignatureJWS, Created: &created, VerificationMethod: issuer + "#key-1"},
+			ldOpt(loader)); e != nil {
+			continue
+		}
+
+		vcb, e := json.Marshal(vc2)
+		must(e)
+
+		edJWK, e := jwksupport.JWKFromKey(ed25519.PublicKey(sg.PublicKeyBytes()))
+		must(e)
+
+		edJWKb, e := edJWK.MarshalJSON()
+		must(e)
+
+		vm := `{"id":"` + issuer + `#key-1","type":"` + sc.vmType + `","controller":"` + issuer + `",`
+		if sc.vmType == "JsonWebKey2020" {
+			vm += `"publicKeyJwk":` + string(edJWKb) + `}`
+		} else {
+			vm += `"publicKeyBase58":"` + base58.Encode(sg.PublicKeyBytes()) + `"}`
+		}
+
+		doc := `{"@context":["https://www.w3.org/ns/did/v1"],"id":"` + issuer + `","verificationMethod":[` + vm +
+			`],"assertionMethod":["` + issuer + `#key-1"],"authentication":["` + issuer + `#key-1"]}`
+
+		both := []byte(`{"credential":` + string(vcb) + `,"issuerDoc":` + doc + `}`)
+
+		run := func(in []byte) error {
+			var w struct {
+				Credential json.RawMessage `json:"credential"`
+				IssuerDoc  json.RawMessage `json:"issuerDoc"`
+			}
+
+			if e2 := json.Unmarshal(in, &w); e2 != nil {
+				return e2
+			}
+
+			idoc, e2 := did.ParseDocument(w.IssuerDoc)
+			if e2 != nil {
+				return e2
+			}
+
+			// what the framework's consumers of a resolved verification method do with it
+			for i := range idoc.VerificationMethod {
+				_, _, _, _ = vmparse.VMToBytesTypeCrv(&idoc.VerificationMethod[i])
+				_, _, _ = vmparse.VMToTypeCrv(&idoc.VerificationMethod[i])
+			}
+
+			reg := &mockvdr.MockVDRegistry{ResolveFunc: func(string, ...vdrspi.DIDMethodOption) (*did.DocResolution, error) {
+				return &did.DocResolution{DIDDocument: idoc}, nil
+			}}
+
+			_, e2 = verifiable.ParseCredential(w.Credential, verifiable.WithJSONLDDocumentLoader(loader),
+				verifiable.WithEmbeddedSignatureSuites(sigSuite, jwsSuite),
+				verifiable.WithPublicKeyFetcher(verifiable.NewVDRKeyResolver(reg).PublicKeyFetcher()))
+
+			return e2
+		}
+
+		must(run(both))
+		s.add(&Seed{Name: "vc+issuerdoc." + sc.name, Layer: "X", Kind: "json", Wire: both,
+			Targets: []Target{{"did.ParseDocument+vmparse+verifiable.ParseCredential(resolved key)", run}}})
+	}
+
 	// DID documents
 	w := s.w
 	docK, err := ecdsa.GenerateKey(elliptic.P256(), detRand("c03-doc"))
@@ -897,8 +1002,19 @@ func (s *syncWorld) docSeeds() {
 	docb := []byte(strings.Replace(didDocJSON, "@JWK@", string(docJB), 1))
 
 	parseDoc := func(in []byte) error {
-		_, e := did.ParseDocument(in)
-		return e
+		d, e := did.ParseDocument(in)
+		if e != nil {
+			return e
+		}
+
+		for _, vms := range d.VerificationMethods() {
+			for i := range vms {
+				_, _, _, _ = vmparse.VMToBytesTypeCrv(&vms[i].VerificationMethod)
+				_, _, _ = vmparse.VMToTypeCrv(&vms[i].VerificationMethod)
+			}
+		}
+
+		return nil
 	}
 	parseRes := func(in []byte) error {
 		_, e := did.ParseDocumentResolution(in)
